@@ -11,6 +11,19 @@ CLAIMS = {
         note="bounded model (<=3 ops quick, <=4 thorough, 8 registrable paths, 14 modules); trusts std binary search, TLC, the harness projection"),
 }
 
+_BATCH_TECH = "TLA+ spec Batcher.tla (implementation-shaped) model-checked by TLC; every transition forced on the real Sender/Receiver via scheduling-point hooks; recorded traces validated by TLC against ChannelTrace.tla"
+_BATCH_NOTE = "bounded configurations (2-3 sender threads x 1-3 ops, 1-2 flushers, capacities 1-2, <=2-3 processor faults, receiver kill); level-A monitor ChannelTrace.tla is the oracle, level-B differences that level A accepts are MODEL-DRIFT; trusts TLC, std Mutex/Condvar, the hook placement (before lock acquisitions / while the lock is held), the harness projection; tokio/condvar internals only under OS scheduling"
+CLAIMS.update({
+    "C06": dict(cat="model_checking", ref="6/C06", technique=_BATCH_TECH, note=_BATCH_NOTE,
+        text="Exhaustive TLC check of the channel design (Partition: swapped-out batches followed by the pending queue equal the accepted sequence minus counted truncations; retry = exactly the remainder) for all interleavings of the bounded configurations; every transition of those state graphs is forced on the real emit_batcher through the scheduler hook and on_batch arguments, queue lengths and metrics are compared step by step; level-A traces of replays and of OS-scheduled sync/tokio workers are validated by TLC (Take = whole queue only when the previous batch is finished, first Call = batch taken, retry Call = remainder returned)."),
+    "C07": dict(cat="model_checking", ref="6/C07", technique=_BATCH_TECH, note=_BATCH_NOTE,
+        text="TLC checks FlushMeansDone / FlushRetTruthful on every reachable state of the channel design (a flush callback fires / blocking flush returns true only when every item accepted before the request has finished its final attempt or was truncated); every transition is forced on the real code and flush results compared; recorded executions (replays, OS-scheduled sync and tokio workers with failing / panicking processors) are validated by TLC against the level-A monitor whose Fired/FlushRet actions carry exactly that guard. The carry-through to emit_file / emit_otlp is exercised by C10/C12's checks."),
+    "C08": dict(cat="model_checking", ref="6/C08", technique=_BATCH_TECH + "; liveness under weak fairness", note=_BATCH_NOTE,
+        text="TLC checks liveness of the receiver design under weak fairness (every registered flush fires, blocked senders wake, sender drop leads to drain and termination, every accepted item is eventually done) and the safety side (retry budget, bounded back-off, callbacks at most once); replays detect hangs of the real code step by step and compare retry/delay/metric behaviour; level-A validation requires bounded attempts, non-decreasing bounded back-off, callbacks once, Exit only when drained; blocking_flush/blocking_send are called from plain, tokio multi-thread worker, current-thread and blocking-pool contexts against live and stalled receivers under a watchdog (a panic or hang is an event the specification has no action for)."),
+    "C09": dict(cat="model_checking", ref="6/C09", technique=_BATCH_TECH, note=_BATCH_NOTE,
+        text="TLC checks Bounded (queue <= capacity), the overflow rule and SendNeverWaits (Send enabled in every receiver state) on the design; every transition is forced on the real code with the queue length observed under the lock after every send; level-A validation decides each Send/TrySend/SendRet event: truncation iff the queue was full, new item kept, one count per truncation, fallible/blocking sends enqueue or hand the item back, including a receiver that never runs or is stalled (kill / stalled-processor scenarios)."),
+})
+
 NOT_YET = {}
 
 
